@@ -16,7 +16,7 @@ ASSUMPTIONS = ["a virtual clock is not simulated; only the code shape around the
 DOC = {
  "C12.R1": "one-shot bodies: exactly one effect call, not in a cycle, dominated by the Ready edge of the await of sleep(period) with period originating unmodified from the parameter; the effect class matches the function's name (send_after->send_message, exit_after->stop, kill_after->kill)",
  "C12.R2": "send_after: the task's result is the send's result (errors are reported through the handle)",
- "C12.R3": "interval bodies: interval(period) from the unmodified parameter; one tick awaited before the cycle; each in-cycle send dominated by an in-cycle tick; cycle guarded by ACTIVE_STATES.contains(status) read each iteration; failed send leaves the cycle; no sleep in the cycle",
+ "C12.R3": "interval bodies: interval(period) from the unmodified parameter; one tick awaited before the cycle; each in-cycle send dominated by an in-cycle tick; cycle guarded by a per-iteration status test (comparisons and/or membership in a constant table whose contents are read from its MIR) that excludes Draining/Stopping/Stopped; failed send leaves the cycle; no sleep in the cycle",
  "C12.R4": "twins: ActorRef/DerivedActorRef::{send_interval,send_after,exit_after,kill_after} delegate to the free function of the same name or contain a body that passes R1/R3 under that name",
  "C12.R5": "the crate's interval() returns the runtime's interval built from its parameter and does not reconfigure it (no set_missed_tick_behavior: default Burst keeps the k-th tick at k periods)",
 }
@@ -129,17 +129,13 @@ def r3(run, db):
         nxt = f.site_succ(snd[0].site)
         run.check(all(f.must_pass(x, [inc[0].site], to_sites=[snd[0].site]) for x in nxt), key + "|tick-per-send", "between two sends there is always a tick", "two sends can happen without a tick in between", f.where())
         # status gate
-        cont = [c for c in f.calls() if c.matches(r"slice::<impl \[T\]>::contains$|contains$")]
-        gs = [c for c in f.calls() if c.is_("get_status")]
-        good = False
-        for c in cont:
-            consts = [r for r in f.origins(c.args[0], through=lambda cc: 0 if cc.matches("Deref|as_slice|Unsize") else None)]
-            is_active = any((r["k"] == "const" and "ACTIVE_STATES" in str(f.const_repr(r["op"]))) for r in consts)
-            subj = any(r["k"] == "call" and r["call"].is_("get_status") for r in f.origins(c.args[1]))
-            te = true_edge(f, c)
-            if is_active and subj and te and f.edge_dominates(te, inc[0].site) and f.in_cycle(c.site):
-                good = True
-        run.check(good, key + "|active-gate", "each iteration re-reads the status and continues only while it is in ACTIVE_STATES", "the cycle is not guarded by a per-iteration ACTIVE_STATES test (leaked timer task)", f.where())
+        adm, desc, ng = admitted_with_tables(db, f, inc[0].site)
+        reads_in_cycle = any(f.in_cycle(c.site) for c in f.calls() if c.is_("get_status"))
+        late = [v for v in adm if v in ("Draining", "Stopping", "Stopped")]
+        run.check(ng >= 1 and reads_in_cycle and not late, key + "|active-gate",
+                  "each iteration re-reads the status and goes on only while it is one of %s (%s)" % (adm, desc),
+                  "the interval cycle %s: the timer task keeps ticking (and building messages) for a target that left the running states" % (
+                      "continues while the target is %s" % late if ng and reads_in_cycle else "is not guarded by a per-iteration status test"), f.where())
         # failed send leaves the cycle
         ie = [c for c in f.calls() if c.matches(r"Result::<T, E>::is_err$|Result::<T, E>::is_ok$") and any(r["k"] == "call" and r["call"].bb == snd[0].bb for r in f.origins(c.args[0]))]
         good = False
